@@ -318,8 +318,8 @@ def emit_spec(gen, fname, ftags, spec, canary):
         info = {'fn': fname, 'kind': section or 'spec', 'tags': list(cur)}
         gen.lines.append(ln)
         gen.linemap.append(info)
-        if mt and section == 'ensures':
-            gen.clauses.append({'fn': fname, 'tags': list(cur), 'line': len(gen.lines), 'text': norm(ln)[:200]})
+        if mt and section in ('ensures', 'requires'):
+            gen.clauses.append({'fn': fname, 'tags': list(cur), 'line': len(gen.lines), 'text': norm(ln)[:200], 'section': section})
 
 
 def expand(template_path, repo_src_dir, canary=False):
